@@ -246,9 +246,12 @@ def c18_special(pid, prop, tier, seed, b):
 
 # ------------------------------------------------------------------ C17 seqls
 
-def gen_tree(rng, aliased=False):
-    """a random directory tree: returns (dirs, files, links) as relative paths;
-    links = {path: target_dir_relpath}"""
+def gen_tree(rng, mode='plain'):
+    """a random directory tree: returns (dirs, files, links) as relative paths; links = {path: target_dir_relpath}.
+    modes: plain    - every link target is a link-free subtree, at most one link per target (exact listing, deterministic)
+           leaflinks- a directory holding several links to leaf directories, itself the target of one more link
+           nested   - links to directories that hold links to directories with sub-directories (K5 probe)
+           aliased  - several links per target, links to ancestors (termination only)"""
     dirs, files, links = ['.'], {}, {}
     def add_files(d):
         for _ in range(rng.randint(0, 3)):
@@ -279,23 +282,47 @@ def gen_tree(rng, aliased=False):
                 grow(p, depth + 1)
     grow('.', 0)
     cands = [d for d in dirs if d != '.']
-    used = set()
-    for _ in range(rng.choice([0, 0, 1, 2])):
-        if not cands:
-            break
-        tgt = rng.choice(cands + (['.'] if aliased else []))
-        if tgt in used and not aliased:
-            continue
-        parent = rng.choice(dirs)
-        if not aliased and (tgt == parent or tgt.startswith(parent + '/') and False):
-            pass
-        name = ('.' if rng.random() < 0.1 else '') + 'lnk%d' % len(links)
+    def under(a, b):          # a is b or below b
+        return a == b or a.startswith(b + '/')
+    def has_link_inside(d):
+        return any(under(os.path.dirname(p) or '.', d) for p in links)
+    def add_link(parent, tgt, hidden=False):
+        name = ('.' if hidden else '') + 'lnk%d' % len(links)
         p = name if parent == '.' else parent + '/' + name
-        # for the exact-listing runs avoid links that point to an ancestor (cycles) unless aliased
-        if not aliased and (parent == tgt or parent.startswith(tgt + '/') or tgt == '.'):
-            continue
         links[p] = tgt
-        used.add(tgt)
+    if mode == 'aliased':
+        for _ in range(rng.choice([1, 2, 3])):
+            if cands:
+                add_link(rng.choice(dirs), rng.choice(cands + ['.']), rng.random() < 0.1)
+    elif mode == 'leaflinks':
+        leaves = [d for d in cands if not any(x != d and under(x, d) for x in dirs)]
+        holders = [d for d in dirs if d != '.']
+        if len(leaves) >= 2 and holders:
+            holder = rng.choice(holders)
+            picked = [l for l in rng.sample(leaves, min(len(leaves), rng.randint(2, 3))) if not under(holder, l) and not under(l, holder)]
+            for l in picked:
+                add_link(holder, l)
+            outside = [d for d in dirs if (d == '.' or (not under(d, holder) and not under(holder, d)))
+                       and not any(under(d, l) for l in picked)]
+            if picked and outside:
+                add_link(rng.choice(outside), holder)
+    elif mode == 'nested':
+        for _ in range(rng.choice([2, 3, 5])):
+            if cands:
+                parent, tgt = rng.choice(dirs), rng.choice(cands)
+                if not under(parent, tgt):
+                    add_link(parent, tgt)
+    else:
+        used = set()
+        for _ in range(rng.choice([0, 0, 1, 2, 3])):
+            if not cands:
+                break
+            tgt, parent = rng.choice(cands), rng.choice(dirs)
+            # target not yet linked, no cycle, and neither the target nor (later) any target may hold a link
+            if tgt in used or under(parent, tgt) or has_link_inside(tgt) or any(under(parent, t) for t in used):
+                continue
+            add_link(parent, tgt, rng.random() < 0.1)
+            used.add(tgt)
     return dirs, files, links
 
 
@@ -314,7 +341,7 @@ def hidden_name(p):
     return len(n) > 1 and n != '..' and n.startswith('.')
 
 
-def expected_jobs(flags, args, dirs, files, links):
+def expected_jobs(flags, args, dirs, files, links, cwd_rel='.'):
     """the directory paths (as spelled) whose listing seqls must print, and the pattern arguments;
     written from the property's words: non-hidden dirs reachable from each root, following each
     directory link whose target has not been followed yet"""
@@ -327,22 +354,27 @@ def expected_jobs(flags, args, dirs, files, links):
         children.setdefault(os.path.dirname(p) or '.', []).append(('L', os.path.basename(p), tgt))
     seen_args, jobs, pats = [], [], []
     roots = []
+    def to_real(c):
+        return os.path.normpath(os.path.join(cwd_rel, c)) if cwd_rel != '.' else c
+    real_of_root = {}
     for a in args:
         c = props.go_clean(a)
         if c in seen_args:
             continue
         seen_args.append(c)
-        real = c
+        real = to_real(c)
         if real in dirset:
             roots.append(c)
+            real_of_root[c] = real
         elif real in links:
             roots.append(c)        # a link given as an argument is a directory for Stat
+            real_of_root[c] = links[real]
         elif any(c == (d + '/' + f if d != '.' else f) for d, fs in files.items() for f in fs):
             continue                # an existing file argument is ignored
         else:
             pats.append(c)
     if 'r' not in flags:
-        return [(r, links.get(r, r)) for r in roots], pats
+        return [(r, real_of_root[r]) for r in roots], pats
     cache = set()
     def real_of(spelled_parent_real, name):
         return name if spelled_parent_real == '.' else spelled_parent_real + '/' + name
@@ -366,7 +398,7 @@ def expected_jobs(flags, args, dirs, files, links):
         jobs.append((spelled, real))
         walk_children(spelled, real)
     for r in roots:
-        visit(r, links.get(r, r))
+        visit(r, real_of_root[r])
     return jobs, pats
 
 
@@ -380,8 +412,9 @@ def c17_special(pid, prop, tier, seed, b):
     cases, failures, disagreements, impl_lines = [], [], [], []
     runs = []
     for t in range(ntrees):
-        aliased = (t % 5 == 4)
-        dirs, files, links = gen_tree(rng, aliased)
+        mode = ['plain', 'plain', 'leaflinks', 'nested', 'aliased'][t % 5]
+        aliased = mode in ('aliased', 'nested')
+        dirs, files, links = gen_tree(rng, mode)
         troot = '%s/t%d' % (root, t)
         os.makedirs(troot)
         build_tree(troot, dirs, files, links)
@@ -401,12 +434,17 @@ def c17_special(pid, prop, tier, seed, b):
                     d = rng.choice(list(files.keys()))
                     args.append((d + '/' if d != '.' else '') + rng.choice(['foo.#.exr', 'bar_@.jpg', 'img.@@@@.tar.gz', 'nope.#.exr', 'foo.%04d.exr']))
                 else:
-                    args.append(rng.choice(['missing/foo.#.exr', '..', '.']))
-            args = [a for a in args if a != '..'] if rng.random() < 0.9 else args
+                    args.append(rng.choice(['missing/foo.#.exr', '.']))
+            cwd_rel = '.'
+            subs = [d for d in dirs if d != '.' and '/' not in d and not d.startswith('.') and d not in links.values()]
+            if v == 0 and subs and mode == 'plain':
+                # run from a sub-directory with the root spelled ".." (the hidden-directory test must not take it for hidden)
+                cwd_rel = rng.choice(subs)
+                args = ['..'] if rng.random() < 0.7 else ['..', '.']
             gmp = rng.choice(['1', '2', '16'])
             workers = rng.choice(['1', '2', '50'])
             runs.append(dict(t=t, troot=troot, dirs=dirs, files=files, links=links, flags=flags, args=args, gmp=gmp,
-                             workers=workers, aliased=aliased))
+                             workers=workers, aliased=aliased, mode=mode, cwd_rel=cwd_rel))
     # expected lines from the library (godriver diskx / findseqx), per run
     def opts_of(flags):
         o = []
@@ -427,7 +465,7 @@ def c17_special(pid, prop, tier, seed, b):
         outs = []
         for rep in range(2):
             try:
-                p = subprocess.run(cmd, cwd=r['troot'], stdout=subprocess.PIPE, stderr=subprocess.PIPE, env=env, timeout=60)
+                p = subprocess.run(cmd, cwd=os.path.join(r['troot'], r['cwd_rel']), stdout=subprocess.PIPE, stderr=subprocess.PIPE, env=env, timeout=60)
                 outs.append(sorted(x for x in p.stdout.decode('latin-1').split('\n') if x != ''))
             except subprocess.TimeoutExpired:
                 outs.append(None)
@@ -439,13 +477,13 @@ def c17_special(pid, prop, tier, seed, b):
     # library answers, one godriver per tree root (cwd matters for relative paths)
     for r, outs in zip(runs, results):
         args = r['args'] or ['.']
-        jobs, pats = expected_jobs(r['flags'], args, r['dirs'], r['files'], r['links'])
+        jobs, pats = expected_jobs(r['flags'], args, r['dirs'], r['files'], r['links'], r['cwd_rel'])
         glines = [line('diskx', ','.join(map(str, opts_of(r['flags']))), sp) for sp, real in jobs]
         glines += [line('findseqx', ','.join(map(str, opts_of(r['flags']))), p) for p in pats]
         r['glines'] = glines
     by_root = collections.OrderedDict()
     for r in runs:
-        by_root.setdefault(r['troot'], []).append(r)
+        by_root.setdefault(os.path.join(r['troot'], r['cwd_rel']), []).append(r)
     for troot, rs in by_root.items():
         all_lines = [l for r in rs for l in r['glines']]
         if all_lines:
@@ -464,7 +502,7 @@ def c17_special(pid, prop, tier, seed, b):
                 if o.startswith('OK'):
                     exp += [unhx(x).decode('latin-1') for x in o.split(' ')[1:]]
             if 'f' in r['flags']:
-                exp = [x if x.startswith('/') else os.path.normpath(os.path.join(r['troot'], x)) for x in exp]
+                exp = [x if x.startswith('/') else os.path.normpath(os.path.join(r['troot'], r['cwd_rel'], x)) for x in exp]
             r['expected'] = sorted(exp)
     # the Coq model's prediction (walk + listing), on the same tree
     mlines = []
@@ -484,11 +522,12 @@ def c17_special(pid, prop, tier, seed, b):
         r['model'] = sorted(unhx(x).decode('latin-1') for x in mo.split(' ')[1:]) if mo.startswith('OK') else None
         r['model_raw'] = mo[:300]
     for r, outs in zip(runs, results):
-        text = 'seqls -%s %r  GOMAXPROCS=%s workers=%s tree: %d dirs %d links%s' % (
-            r['flags'], r['args'], r['gmp'], r['workers'], len(r['dirs']), len(r['links']), ' (aliased/cyclic links)' if r['aliased'] else '')
+        text = 'seqls -%s %r  GOMAXPROCS=%s workers=%s cwd=%s tree[%s]: dirs=%r links=%r' % (
+            r['flags'], r['args'], r['gmp'], r['workers'], r['cwd_rel'], r['mode'], r['dirs'], r['links'])
         c = dict(line='seqls#%d' % len(cases), text=text, shape='flags:' + (r['flags'] or 'none') + (':aliased' if r['aliased'] else ''),
                  meta=dict(flags=r['flags'], args=r['args'], dirs=r['dirs'], files=r['files'], links=r['links'], gmp=r['gmp'], workers=r['workers']),
                  nontrivial=len(r['dirs']) > 1, args=r['args'], op='seqls')
+        c['shape'] = r['mode'] + ':' + (r['flags'] or 'none')
         cases.append(c)
         f = []
         if outs[0] is None or outs[1] is None:
@@ -498,6 +537,9 @@ def c17_special(pid, prop, tier, seed, b):
             continue
         impl_lines.append('OK')
         c['impl'] = '\n'.join(outs[0])[:1500]
+        if r['mode'] == 'nested' and outs[0] != outs[1]:
+            c['text'] = 'nested-links: ' + c['text']
+            f.append('two runs over a tree with nested directory links printed different multisets of lines')
         if not r['aliased']:
             if outs[0] != outs[1]:
                 f.append('two runs printed different multisets of lines')
@@ -507,7 +549,7 @@ def c17_special(pid, prop, tier, seed, b):
                 f.append('printed lines differ from the listing of the selected directories: missing %r extra %r' % (miss[:3], extra[:3]))
         if f:
             failures.append((c, f))
-        if not r['aliased'] and outs[0] is not None:
+        if not r['aliased'] and outs[0] is not None and r['cwd_rel'] == '.':
             c['model'] = r['model_raw']
             if r['model'] is None or outs[0] != r['model']:
                 md = r['model'] or []
